@@ -1,7 +1,142 @@
 import CddVerif.Driver.Basic
+import CddVerif.Driver.C09
+import CddVerif.Model.DocTransCst
+import CddVerif.Model.DocTransAst
+import CddVerif.Py.AstJson
 /-! Driver ops for C07 (line protocol; see Main.lean). Only Mathlib-free imports here. -/
 namespace Driver.C07
-open Lean Driver
+open Lean Driver DocTransCst
 
-def ops : List (String × Handler) := []
+def optChars (j : Json) (k : String) : Option (List Char) :=
+  match j.getObjVal? k with | .ok (.str s) => some s.toList | _ => none
+
+def hargOf (j : Json) : HArg := { name := (optChars j "name").getD [], ann := optChars j "ann" }
+def hargList (j : Json) (k : String) : List HArg :=
+  match j.getObjVal? k with | .ok (.arr a) => a.toList.map hargOf | _ => []
+def optHArg (j : Json) (k : String) : Option HArg :=
+  match j.getObjVal? k with | .ok (.obj o) => some (hargOf (.obj o)) | _ => none
+def hargsOf (j : Json) : HArgs :=
+  { posonly := hargList j "posonly", args := hargList j "args", vararg := optHArg j "vararg", kwonly := hargList j "kwonly",
+    kwDefaults := (match j.getObjVal? "kw_defaults" with
+      | .ok (.arr a) => a.toList.map (fun x => match x with | .str s => some s.toList | _ => none) | _ => []),
+    kwarg := optHArg j "kwarg",
+    defaults := (match j.getObjVal? "defaults" with
+      | .ok (.arr a) => a.toList.filterMap (fun x => match x with | .str s => some s.toList | _ => none) | _ => []) }
+def sigOf (j : Json) : Sig :=
+  { args := (match j.getObjVal? "args" with | .ok a => hargsOf a | _ => {}), returns := optChars j "returns" }
+
+def body0Of (j : Json) : Body0 :=
+  match j.getObjVal? "t" >>= Json.getStr? with
+  | .ok "noBody" => .noBody
+  | .ok "notExpr" => .notExpr
+  | .ok "nonConst" => .nonConst
+  | .ok "str" => .str ((optChars j "s").getD [])
+  | .ok "none" => .noneConst
+  | .ok "falsy" => .falsy
+  | .ok "truthy" => .truthy ((j.getObjVal? "bytes" >>= Json.getBool?).toOption.getD false)
+  | _ => .notExpr
+
+def editOf (j : Json) : Except String FnEdit := do
+  let kind ← match (← getStr j "kind") with
+    | "cls" => pure DefKind.cls | "fn" => pure DefKind.fn | "async" => pure DefKind.asyncFn
+    | k => throw s!"bad kind {k}"
+  return { kind := kind, name := ← getChars j "name", lineno := ← getNat j "lineno",
+           body0 := (match j.getObjVal? "body0" with | .ok b => body0Of b | _ => .notExpr), sig := sigOf j }
+
+def nodeOf (j : Json) : Except String Cst.Node := do
+  let ob := fun (k : String) => match j.getObjVal? k with | .ok (.bool b) => some b | _ => none
+  return { kind := ← getStr j "kind", start := ← getNat j "start", stop := ← getNat j "stop", value := ← getChars j "value",
+           name := optChars j "name", isDoubleQ := ob "is_double_q", isDocstr := ob "is_docstr" }
+
+/-- header-parse oracle from a table `[{"key": text, "sig": {...}} | {"key": text, "error": cls}]`;
+    a missing key is reported as `oracle-miss:<key>` so that the harness can supply it and retry -/
+def parserOf (j : Json) : Except String HeaderParser := do
+  let tbl ← (match j.getObjVal? "parses" with | .ok (.arr a) => pure a.toList | _ => pure [])
+  let entries : List (List Char × Except Err Sig) ← tbl.mapM (fun e => do
+    let k ← getChars e "key"
+    match e.getObjVal? "error" with
+    | .ok (.str x) => pure (k, Except.error x)
+    | _ => pure (k, Except.ok (sigOf (← e.getObjVal? "sig"))))
+  return fun key =>
+    match entries.find? (·.1 == key) with
+    | some (_, r) => r
+    | none => .error ("oracle-miss:" ++ String.ofList key)
+
+def inputNodes (j : Json) : Except String (List Cst.Node) := do
+  match j.getObjVal? "nodes" with
+  | .ok (.arr a) => a.toList.mapM nodeOf
+  | _ => return Cst.cstParse (← getChars j "src")
+
+def editsOf (j : Json) : Except String (List FnEdit) := do
+  (← getArr j "edits").toList.mapM editOf
+
+def effectJson : Effect → Json
+  | .openRead => Json.arr #["open", "rt"]
+  | .read => Json.arr #["read"]
+  | .closeRead => Json.arr #["close", "rt"]
+  | .print l => Json.arr #["print", str l]
+  | .openWrite => Json.arr #["open", "wt"]
+  | .write s => Json.arr #["write", str s]
+  | .closeWrite => Json.arr #["close", "wt"]
+
+def hargJ (a : HArg) : Json := Json.mkObj [("name", str a.name), ("ann", optStr a.ann)]
+
+/-- oracle of the AST-level model from tables keyed by the dotted path -/
+def astOracleOf (j : Json) : DocTransAst.Oracle :=
+  let key (p : List String) : String := ".".intercalate p
+  let tbl (k : String) : Json := match j.getObjVal? k with | .ok t => t | _ => Json.mkObj []
+  let docs := tbl "new_doc"
+  let ptys := tbl "param_typ"
+  let rtys := tbl "return_typ"
+  { newDoc := fun p _ => match docs.getObjVal? (key p) with | .ok (.str s) => some s | _ => none,
+    paramTyp := fun p n => match ptys.getObjVal? (key p) with
+      | .ok t => (match t.getObjVal? n with | .ok (.str s) => some s | _ => none)
+      | _ => none,
+    returnTyp := fun p => match rtys.getObjVal? (key p) with | .ok (.str s) => some s | _ => none,
+    annTyp := fun _ _ a => a,
+    assignTyp := fun _ _ => none }
+
+def ops : List (String × Handler) := [
+  /- nodes (or src → cst_parse) + edits + header parses → new nodes / joined text / debug lines, or the exception -/
+  ("c07.splice", fun j => do
+    let nodes ← inputNodes j
+    let edits ← editsOf j
+    let parse ← parserOf j
+    let r := doctransifyLoop parse nodes edits
+    match r.2 with
+    | .ok ns => return Json.mkObj [("out", str (joinValues ns)), ("nodes", Json.arr (ns.map Driver.C09.nodeJson).toArray), ("log", strs r.1)]
+    | .error x => return Json.mkObj [("raises", Json.str x), ("log", strs r.1)]),
+  /- the whole `doctrans` as an effect trace -/
+  ("c07.doctrans", fun j => do
+    let parse ← parserOf j
+    let file : Except Err (List Char) ← (match j.getObjVal? "read_error" with
+      | .ok (.str x) => pure (Except.error x)
+      | _ => do pure (Except.ok (← getChars j "src")))
+    let stage : Except Err (Bool × List FnEdit) ← (match j.getObjVal? "ast_error" with
+      | .ok (.str x) => pure (Except.error x)
+      | _ => do pure (Except.ok (← getBool j "changed", ← editsOf j)))
+    let w : World := { astStage := fun _ => stage, parseHeader := parse }
+    let r := doctrans w file
+    let before := match file with | .ok s => s | .error _ => []
+    return Json.mkObj [("trace", Json.arr (r.1.map effectJson).toArray),
+      ("result", match r.2 with | .ok _ => Json.str "ok" | .error x => Json.str ("raises:" ++ x)),
+      ("file_after", str (fileAfter before r.1))]),
+  ("c07.unparse_args", fun j => do
+    let a := hargsOf (← j.getObjVal? "args")
+    return Json.mkObj [("r", str (unparseArgs a)), ("synth", str (synthArgs a.args))]),
+  ("c07.reindent", fun j => do
+    return Json.mkObj [("r", str (reindentWithPass (← getChars j "s")))]),
+  ("c07.locate", fun j => do
+    let v ← getChars j "s"
+    let (a, b) := locateParens v
+    return Json.mkObj [("pre", str a), ("post", str b)]),
+  /- AST-level `DocTrans` on the flat AST with the decisions read off the real output -/
+  ("c07.doctrans_ast", fun j => do
+    let m := PyAst.moduleOf (← j.getObjVal? "module")
+    let ta ← getBool j "type_annotations"
+    match DocTransAst.docTrans (astOracleOf j) ta m with
+    | .ok m' => return Json.mkObj [("module", PyAst.moduleJ m'), ("erased", PyAst.moduleJ (DocTransAst.erase m')),
+                                   ("erased_in", PyAst.moduleJ (DocTransAst.erase m))]
+    | .error x => return Json.mkObj [("raises", Json.str x)])
+]
 end Driver.C07
